@@ -435,7 +435,11 @@ namespace occa {
 
       const std::string identifier = str();
 
-      int type = shallowPeek();
+      // An encoding prefix has to touch its literal (shallowPeek skips whitespace)
+      const bool touchesNextToken = !lex::isWhitespace(*fp.start);
+      int type = (touchesNextToken
+                  ? shallowPeek()
+                  : tokenType::none);
       popAndRewind();
 
       // sizeof, new, delete, throw
